@@ -7,6 +7,8 @@ from concurrent.futures import ThreadPoolExecutor
 man = json.load(open('/verif/MANIFEST.json'))
 pids = [c['property_id'] for c in man['checks']]
 seeds = sorted(d for d in os.listdir('/verif/seeded') if os.path.isdir(os.path.join('/verif/seeded', d)))
+if len(sys.argv) > 1:
+    seeds = [d for d in seeds if d in sys.argv[1:]]
 def one(name):
     d = os.path.join('/verif/seeded', name)
     td = tempfile.mkdtemp(prefix='seedchk_')
